@@ -270,11 +270,11 @@ class Outcome:
         rc = 0
         shutil.rmtree(os.path.join(REPLAYS, self.pid), ignore_errors=True)
         os.makedirs(os.path.join(REPLAYS, self.pid), exist_ok=True)
-        reported = set()
+        reported = {}
         for key, what, witness in new:
-            if key in reported and len(reported) > 0:
-                continue  # one replay per classifier key
-            reported.add(key)
+            if reported.get(key, 0) >= 5:
+                continue  # at most five replays per classifier key
+            reported[key] = reported.get(key, 0) + 1
             blob = json.dumps({"property": self.pid, "key": key, "what": what,
                                "witness": witness}, indent=1, sort_keys=True)
             h = hashlib.sha1(blob.encode()).hexdigest()[:12]
